@@ -179,9 +179,8 @@ def _operands(case, mk):
 
 
 def _generic_cases():
-    from qucumber.utils import cplx
-    from contracts import gcplx
-    return gcplx.cases(cplx)
+    from contracts import gsets
+    return gsets.cases_for("C15")
 
 
 def run_config(ctx, cfg):
